@@ -47,11 +47,13 @@ Theorem C07_probe_times_250_apart : forall ops n t0,
   times_from t0 ops -> no_conflicts ops -> gaps_250 (probe_times n (run_ops reg_new ops)).
 Proof. exact probe_times_gaps. Qed.
 
-(* THE SAME ON THE WIRE, FOR EVERY HISTORY OF THE DAEMON MODEL without response datagrams and
-   without enable/disable_interface calls (plain_iter): whatever the interface table (without
-   repeated indexes), the query datagrams delivered (competing probes included), the register /
-   unregister / shutdown calls, the jitter values and the (nondecreasing) iteration times, the
-   iterations that put a probe query for name n on interface k are at least 250 ms apart. *)
+(* THE SAME ON THE WIRE, FOR EVERY HISTORY OF THE DAEMON MODEL without response datagrams, without
+   enable/disable_interface calls and - since fix d685fcf, which makes the registries forget the names
+   of an unregistered service so that a re-registration starts a new series at once - without
+   unregister calls (plain_iter): whatever the interface table (without repeated indexes), the query
+   datagrams delivered (competing probes included), the register / monitor / shutdown calls, the
+   jitter values and the (nondecreasing) iteration times, the iterations that put a probe query for
+   name n on interface k are at least 250 ms apart. *)
 Theorem C07_wire_probe_spacing : forall ifs its t0 k n,
   NoDup (map if_index ifs) -> Forall plain_iter its -> iter_times_from t0 its ->
   gaps_250 (wire_probe_times k n (d_init ifs) its).
